@@ -574,7 +574,7 @@ def run_world(ctx, w, hook, rng):
                                                          text),
                             mechanism=mech,
                             vsig="table|%s" % mech)
-    if for_validator is not None and rng.random() < 0.5:
+    if for_validator is not None and rng.random() < 0.8:
         validator_scenario(ctx, w, hook, for_validator)
 
 
